@@ -681,6 +681,27 @@ impl Disk {
             return Err(Box::new(Error::PathNotFound));
         }
     }
+    /// Count the blocks `write_file` will allocate: one per stored chunk, the sapling index block,
+    /// and for a tree file the master index block plus an index block for every further group of
+    /// 256 chunk indices that holds data.
+    fn blocks_needed(fimg: &super::FileImage) -> usize {
+        let end = fimg.end();
+        let mut ans = fimg.chunks.len();
+        if end > 1 {
+            ans += 1;
+        }
+        if end > 256 {
+            ans += 1;
+            let mut groups = std::collections::BTreeSet::new();
+            for idx in fimg.chunks.keys() {
+                if *idx >= 256 {
+                    groups.insert(*idx/256);
+                }
+            }
+            ans += groups.len();
+        }
+        ans
+    }
     // Write a data block or account for a hole.
     // It is up to the creator of SparseFileData to ensure that the first block is not empty. 
     fn write_data_block_or_not(&mut self,count: usize,end: usize,ent: &mut Entry,buf_maybe: Option<&Vec<u8>>) -> Result<u16,DYNERR> {
@@ -1173,8 +1194,16 @@ impl super::DiskFS for Disk {
             error!("chunk length {} is incompatible with ProDOS",fimg.chunk_len);
             return Err(Box::new(Error::Range));
         }
+        if fimg.chunks.len()==0 {
+            error!("empty data is not allowed for ProDOS file images");
+            return Err(Box::new(Error::EndOfData));
+        }
         match self.prepare_to_write(&fimg.full_path) {
             Ok((name,dir_key_block,loc,new_key_block)) => {
+                // nothing is written unless there is room for all the data and index blocks
+                if Self::blocks_needed(fimg) > self.num_free_blocks()? as usize {
+                    return Err(Box::new(Error::DiskFull));
+                }
                 // update the file count in the parent key block
                 let mut dir = self.get_directory(dir_key_block as usize)?;
                 dir.inc_file_count();
